@@ -802,6 +802,16 @@ pub fn tempid_stream(rep: &mut Report, rng: &mut Rng, n: usize) {
         rep.model_case(vec![line], vec![a], "temp-id-load");
     }
     // the same documents merged into a store that holds annotations already
+    // first the fixed corpus: temporary identifiers at the edge of the machine word (the bound `handle + pre` must not overflow)
+    for line in ["tid merge 1 18446744073709551615", "tid merge 2 18446744073709551614", "tid merge 3 0,18446744073709551615",
+                 "tid merge 4 -,18446744073709551612", "tid merge 1 9223372036854775807", "tid merge 2 -,-,18446744073709551615"] {
+        let a = exec_line(line);
+        rep.count(&format!("tid:merge-edge:{}", a.split(' ').next().unwrap_or("?")));
+        rep.case(Some(line));
+        if a.starts_with("lost") { rep.fail("oracle", "C19/json/merge/annotation-that-was-there-is-gone", vec![line.to_string()], "what was in the store stays", &a); }
+        if a.starts_with("panic") { rep.fail("panic", "C19/json/merge/temporary-identifier-at-the-edge-of-the-word", vec![line.to_string()], "an error, not a panic", &a); }
+        rep.model_case(vec![line.to_string()], vec![a], "temp-id-merge");
+    }
     for i in 0..n {
         let pre = 1 + rng.below(4);
         let k = 1 + rng.below(5);
@@ -811,7 +821,8 @@ pub fn tempid_stream(rep: &mut Report, rng: &mut Rng, n: usize) {
             3..=6 => { next += rng.below(3); let h = next; next += 1; h.to_string() }                  // what a store writes: increasing from 0, with gaps
             7 => { let h = next.saturating_sub(1 + rng.below(3)); h.to_string() }
             8 => { next += pre + rng.below(6); let h = next; next += 1; h.to_string() }                  // beyond what is there
-            _ => { next += 1000 + rng.below(1000); let h = next; next += 1; h.to_string() }
+            _ => if rng.below(3) == 0 { (*rng.pick(&["18446744073709551615", "18446744073709551614", "9223372036854775808"])).to_string() }   // never allocatable; `handle + pre` beyond the word
+                 else { next += 1000 + rng.below(1000); let h = next; next += 1; h.to_string() }
         }).collect();
         let line = format!("tid merge {} {}", pre, items.join(","));
         let a = exec_line(&line);
